@@ -81,7 +81,7 @@ example : LitAll Variant.current
     ([Entry.str "f".toList, .str "_p".toList] ++ [.str "sep".toList]) :=
   LitAll.aug (items := [_, _, _, _])
     (LitAll.skip (items := [_, _, _])
-      (LitAll.assign (pre := [_, _]) (by decide)) (by decide) (by intro t val h; cases h))
+      (LitAll.assign (pre := [_, _]) (by decide)) (by decide) (by intro t val h; cases h) (by decide))
     (by decide)
 
 example : exports Variant.current ⟨["m".toList], false, fun _ => false⟩
@@ -128,38 +128,44 @@ theorem C19_never_foreign (v : Variant) (env : Env) (items : List Item) (xs : Li
 
 /-! ## C19_exact — exactness (with D8 fixed, or in the absence of the D8 forms) -/
 
-/-- **C19_exact_partial.**  Target (full strength, no hypothesis `hd8`): without a literal
+/-- **C19_exact_partial.**  Target (full strength, no hypotheses `hd8`, `hdel`): without a literal
     `__all__` the exports are *exactly* the public names among the top-level defs / classes /
-    assigned names and the own-package re-exports.  The unfixed tree violates it
-    (`Witness.d8_*` below), so it is proved under `hd8`: D8 is fixed, or the module has no
-    `async def`, no annotated assignment with a value and no tuple/list target. -/
+    assigned names that no later `del` removed (`liveDefs`) and the own-package re-exports.
+    Proved under `hd8` (D8 is fixed, or the module has no `async def`, no annotated assignment
+    with a value and no tuple/list target; refuted otherwise by `Witness.d8_*`) and `hdel`
+    (every `del` is one the code sees: D53 fixed and no parenthesised `del (a, b)`, or no `del`
+    at all; refuted otherwise by `Witness.d53_current`, `Witness.del_nested_fixed`). -/
 theorem C19_exact_partial (v : Variant) (env : Env) (items : List Item) (xs : List Str)
-    (hd8 : v.d8 = true ∨ noD8Forms items = true)
+    (hd8 : v.d8 = true ∨ noD8Forms items = true) (hdel : delsSeen v items = true)
     (hg : (allState v items).1 = false) (h : exports v env items = .ok xs) (n : Str) :
-    n ∈ xs ↔ (n.head? ≠ some '_' ∧ '.' ∉ n ∧ (n ∈ defNames items ∨ OwnReexport v env items n)) := by
-  constructor
-  · intro hn
-    obtain ⟨h1, h2⟩ := C19_public v env items xs h n hn
-    exact ⟨h1, h2, C19_own v env items xs hg h n hn⟩
-  · rintro ⟨hp, hd, hsrc⟩
-    unfold exports at h
-    simp only [hg, Bool.false_eq_true, ↓reduceIte] at h
-    cases hre : reexports v env items with
-    | error e => rw [hre] at h; cases h
-    | ok re =>
-      rw [hre] at h
-      simp only [Except.ok.injEq] at h; subst h
+    n ∈ xs ↔ (n.head? ≠ some '_' ∧ '.' ∉ n ∧ (n ∈ liveDefs items ∨ OwnReexport v env items n)) := by
+  have hpub := C19_public v env items xs h n
+  unfold exports at h
+  simp only [hg, Bool.false_eq_true, ↓reduceIte] at h
+  cases hre : reexports v env items with
+  | error e => rw [hre] at h; cases h
+  | ok re =>
+    rw [hre] at h
+    simp only [Except.ok.injEq] at h; subst h
+    constructor
+    · intro hn
+      obtain ⟨h1, h2⟩ := hpub hn
+      refine ⟨h1, h2, ?_⟩
+      rcases List.mem_append.mp (mem_publicNames.mp hn).1 with hm | hr
+      · exact Or.inl (members_sub_liveDefs hdel n hm)
+      · exact Or.inr ((reexports_mem hre n).mp hr)
+    · rintro ⟨hp, hd, hsrc⟩
       rw [mem_publicNames]
       refine ⟨?_, ?_, ?_⟩
       · rcases hsrc with hdn | hown
         · apply List.mem_append_left
-          simp only [defNames, List.mem_flatMap] at hdn
-          obtain ⟨it, hit, hn⟩ := hdn
-          simp only [members, List.mem_flatMap]
-          refine ⟨it, hit, defBinds_sub_memberFromNode v it ?_ n hn⟩
-          rcases hd8 with h8 | h8
-          · exact Or.inl h8
-          · exact Or.inr (List.all_eq_true.mp h8 it hit)
+          obtain ⟨pre, it, post, rfl, hf, hpost⟩ := mem_live_iff.mp hdn
+          refine mem_live_iff.mpr ⟨pre, it, post, rfl, defBinds_sub_memberFromNode v it ?_ n hf, ?_⟩
+          · rcases hd8 with h8 | h8
+            · exact Or.inl h8
+            · exact Or.inr (List.all_eq_true.mp h8 it (by simp))
+          · intro j hj hc
+            exact hpost j hj (delSeen_sub_delAll v j n hc)
         · exact List.mem_append_right _ ((reexports_mem hre n).mpr hown)
       · cases hh : n.head? with
         | none => simp [isPrivate, hh]
@@ -168,14 +174,61 @@ theorem C19_exact_partial (v : Variant) (env : Env) (items : List Item) (xs : Li
           intro hc; exact hp (by rw [hh, hc])
       · simpa [isDotted] using hd
 
-/-- **C19_exact_fixed.**  With both proposed fixes applied the exactness clause holds for every
-    module without a literal `__all__`, with no hypothesis on the statement forms. -/
+/-- **C19_exact_fixed.**  With the fixes applied (D8, D31, D53) the exactness clause holds for every
+    module without a literal `__all__` whose `del` statements name their targets plainly. -/
 theorem C19_exact_fixed (env : Env) (items : List Item) (xs : List Str)
+    (hdel : delsSeen Variant.fixed items = true)
     (hg : (allState Variant.fixed items).1 = false) (h : exports Variant.fixed env items = .ok xs)
     (n : Str) :
     n ∈ xs ↔ (n.head? ≠ some '_' ∧ '.' ∉ n ∧
-      (n ∈ defNames items ∨ OwnReexport Variant.fixed env items n)) :=
-  C19_exact_partial Variant.fixed env items xs (Or.inl rfl) hg h n
+      (n ∈ liveDefs items ∨ OwnReexport Variant.fixed env items n)) :=
+  C19_exact_partial Variant.fixed env items xs (Or.inl rfl) hdel hg h n
+
+/-- **C19_deleted_not_exported.**  (D53 fixed.)  A name whose last top-level event is `del` — no
+    later statement makes it a member again — and that is not an own-package re-export is not
+    exported, whatever came before the `del`. -/
+theorem C19_deleted_not_exported (v : Variant) (env : Env) (pre post : List Item)
+    (ns nested : List Str) (xs : List Str) (n : Str)
+    (h53 : v.d53 = true) (hn : n ∈ ns)
+    (hpost : ∀ it ∈ post, n ∉ memberFromNode v it)
+    (hg : (allState v (pre ++ .del ns nested :: post)).1 = false)
+    (hre : ¬ OwnReexport v env (pre ++ .del ns nested :: post) n)
+    (h : exports v env (pre ++ .del ns nested :: post) = .ok xs) :
+    n ∉ xs := by
+  intro hx
+  unfold exports at h
+  simp only [hg, Bool.false_eq_true, ↓reduceIte] at h
+  cases hr : reexports v env (pre ++ .del ns nested :: post) with
+  | error e => rw [hr] at h; cases h
+  | ok re =>
+    rw [hr] at h
+    simp only [Except.ok.injEq] at h; subst h
+    rcases List.mem_append.mp (mem_publicNames.mp hx).1 with hm | hr'
+    · obtain ⟨pre', it, post', heq, hf, hp⟩ := mem_live_iff.mp hm
+      -- where does `it` sit relative to the `del`?
+      have hcases := List.append_eq_append_iff.mp heq
+      rcases hcases with ⟨as, h1, h2⟩ | ⟨bs, h1, h2⟩
+      · -- pre' = pre ++ as, del :: post = as ++ it :: post'
+        cases as with
+        | nil =>
+          simp only [List.nil_append, List.cons.injEq] at h2
+          obtain ⟨rfl, _⟩ := h2
+          simp [memberFromNode] at hf
+        | cons a as' =>
+          simp only [List.cons_append, List.cons.injEq] at h2
+          obtain ⟨_, rfl⟩ := h2
+          exact hpost it (by simp) hf
+      · -- pre = pre' ++ bs, it :: post' = bs ++ del :: post
+        cases bs with
+        | nil =>
+          simp only [List.nil_append, List.cons.injEq] at h2
+          obtain ⟨rfl, _⟩ := h2
+          simp [memberFromNode] at hf
+        | cons b bs' =>
+          simp only [List.cons_append, List.cons.injEq] at h2
+          obtain ⟨_, rfl⟩ := h2
+          exact hp (.del ns nested) (by simp) (by simp [delSeen, h53, hn])
+    · exact hre ((reexports_mem hr n).mp hr')
 
 /-- `exports` never fails when there is no literal `__all__` (the only error branch left is
     `DottedIdentifier(None)`, which `ast.parse` output cannot reach). -/
@@ -185,21 +238,92 @@ theorem C19_total (v : Variant) (env : Env) (items : List Item)
   obtain ⟨re, hre⟩ := reexports_total (v := v) (env := env) hwf
   exact ⟨publicNames (members v items ++ re), by simp [exports, hg, hre]⟩
 
-example : noD8Forms [.funcDef "f".toList, .assign [.name "x".toList, .other] .nonlit,
+example : noD8Forms [.funcDef "f".toList, .assign [.name "x".toList, .other ["os".toList]] .nonlit,
     .annAssign (.name "y".toList) false .nonlit, .importFrom 1 (some ["sub".toList]) [⟨"z".toList, none⟩]]
     = true := by decide
 
+/-! ## C19_store_only — only Store-context names of assignment targets matter -/
+
+/-- forget the Load-context names (`os`, `k` in `os.environ[k] = …`, `dec` in `dec.FLAG, a = …`) -/
+def Target.eraseLoads : Target → Target
+  | .name n => .name n
+  | .pattern b _ => .pattern b []
+  | .other _ => .other []
+
+def Item.eraseLoads : Item → Item
+  | .assign ts v => .assign (ts.map Target.eraseLoads) v
+  | .annAssign t hv v => .annAssign t.eraseLoads hv v
+  | .augAssign t v => .augAssign t.eraseLoads v
+  | it => it
+
+theorem targetMembers_eraseLoads (v : Variant) (t : Target) :
+    targetMembers v t.eraseLoads = targetMembers v t := by
+  cases t <;> rfl
+
+theorem isAllTarget_eraseLoads (t : Target) : isAllTarget t.eraseLoads = isAllTarget t := by
+  cases t <;> rfl
+
+theorem memberFromNode_eraseLoads (v : Variant) (it : Item) :
+    memberFromNode v it.eraseLoads = memberFromNode v it := by
+  cases it with
+  | assign ts val =>
+    simp only [Item.eraseLoads, memberFromNode, List.flatMap_map]
+    congr 1; funext t; exact targetMembers_eraseLoads v t
+  | annAssign t hv val => simp [Item.eraseLoads, memberFromNode, targetMembers_eraseLoads]
+  | _ => rfl
+
+theorem allStep_eraseLoads (v : Variant) (st : Bool × List Entry) (it : Item) :
+    allStep v st it.eraseLoads = allStep v st it := by
+  cases it with
+  | assign ts val =>
+    have : (ts.map Target.eraseLoads).any isAllTarget = ts.any isAllTarget := by
+      simp [List.any_map, Function.comp_def, isAllTarget_eraseLoads]
+    simp [Item.eraseLoads, allStep, allAssignVal, this]
+  | annAssign t hv val => simp [Item.eraseLoads, allStep, allAssignVal, isAllTarget_eraseLoads]
+  | augAssign t val => simp [Item.eraseLoads, allStep, allAssignVal, isAllTarget_eraseLoads]
+  | _ => rfl
+
+theorem reexports_eraseLoads (v : Variant) (env : Env) (items : List Item) :
+    reexports v env (items.map Item.eraseLoads) = reexports v env items := by
+  induction items with
+  | nil => rfl
+  | cons it rest ih =>
+    have h : reexportsOf v env it.eraseLoads = reexportsOf v env it := by cases it <;> rfl
+    simp only [List.map_cons, reexports, h, ih]
+
+/-- **C19_store_only.**  The exports do not depend on which names occur in Load context inside
+    assignment targets (bases / indices of attribute and subscript targets, alone or as elements
+    of a tuple target): a module that writes `os.environ[k] = v` or `decoder.FLAG, a = …` exports
+    exactly what it would export without mentioning `os`, `k`, `decoder` there. -/
+theorem C19_store_only (v : Variant) (env : Env) (items : List Item) :
+    exports v env (items.map Item.eraseLoads) = exports v env items := by
+  have hm : members v (items.map Item.eraseLoads) = members v items := by
+    have hd : ∀ it : Item, delSeen v it.eraseLoads = delSeen v it := by intro it; cases it <;> rfl
+    simp only [members, live, List.foldl_map]
+    congr 1; funext acc it; rw [memberFromNode_eraseLoads, hd]
+  have hs : allScan v (items.map Item.eraseLoads) = allScan v items := by
+    simp only [allScan, List.foldl_map]
+    congr 1; funext st it; exact allStep_eraseLoads v st it
+  unfold exports allState
+  rw [hm, hs, reexports_eraseLoads]
+
 /-! ## C19_importable — every export is bound by straight-line execution of the items -/
 
-/-- **C19_importable_partial.**  Every exported name is bound by straight-line execution of the
-    modelled items (`bound`: assignments incl. tuple/annotated targets, defs, classes, imports).
-    Hypothesis `hall`: when a literal `__all__` decides the exports, its string entries are names
-    the module binds (a module listing unbound names in `__all__` is not star-importable at all).
-    Not covered: `del`, and bindings/unbindings inside compound statements (`Item.other`). -/
+/-- **C19_importable_partial.**  Every exported name is bound after straight-line execution of the
+    modelled items in order (`bound`: assignments incl. tuple/annotated targets, defs, classes,
+    imports bind; `del` unbinds).
+    Hypotheses: `hall` — when a literal `__all__` decides the exports, its string entries are names
+    the module binds (a module listing unbound names in `__all__` is not star-importable at all);
+    `hdel` — every `del` is one the code sees (D53 fixed and no parenthesised `del (a, b)`; refuted
+    otherwise by `Witness.d53_current` / `del_nested_fixed`); `hre` — no `del` names an own-package
+    re-export (the code adds those after the pass; refuted otherwise by `Witness.del_reexport_fixed`).
+    Not covered: bindings/unbindings inside compound statements (`Item.other`). -/
 theorem C19_importable_partial (v : Variant) (env : Env) (items : List Item) (xs : List Str)
     (h : exports v env items = .ok xs)
     (hall : (allState v items).1 = true →
-      ∀ s, Entry.str s ∈ (allState v items).2 → s ∈ bound items) :
+      ∀ s, Entry.str s ∈ (allState v items).2 → s ∈ bound items)
+    (hdel : delsSeen v items = true)
+    (hre : ∀ j ∈ items, ∀ m ∈ delAll j, ¬ OwnReexport v env items m) :
     ∀ n ∈ xs, n ∈ bound items := by
   intro n hn
   unfold exports at h
@@ -215,16 +339,17 @@ theorem C19_importable_partial (v : Variant) (env : Env) (items : List Item) (xs
       apply hall hgood n
       rw [entryStrs_ok_iff.mp hes]
       exact List.mem_map.mpr ⟨n, hmem, rfl⟩
-  · cases hre : reexports v env items with
-    | error e => rw [hre] at h; cases h
+  · cases hr : reexports v env items with
+    | error e => rw [hr] at h; cases h
     | ok re =>
-      rw [hre] at h
+      rw [hr] at h
       simp only [Except.ok.injEq] at h; subst h
-      rcases List.mem_append.mp (mem_publicNames.mp hn).1 with hm | hr
-      · exact defNames_sub_bound items n (members_sub_defNames v items n hm)
-      · obtain ⟨lvl, mod, als, fm, a, hit, _, ha, hne, _, hb⟩ := (reexports_mem hre n).mp hr
-        simp only [bound, List.mem_flatMap]
-        refine ⟨_, hit, ?_⟩
+      rcases List.mem_append.mp (mem_publicNames.mp hn).1 with hm | hr'
+      · exact liveDefs_sub_bound items n (members_sub_liveDefs hdel n hm)
+      · have hown := (reexports_mem hr n).mp hr'
+        have hown' := hown
+        obtain ⟨lvl, mod, als, fm, a, hit, _, ha, hne, _, hb⟩ := hown'
+        refine mem_live_of_no_del hit ?_ (fun j hj hc => hre j hj n hc hown)
         simp only [itemBinds, List.mem_map, List.mem_filter, bne_iff_ne, ne_eq]
         exact ⟨a, ⟨ha, hne⟩, hb.symm⟩
 
@@ -442,7 +567,7 @@ def envM : Env := ⟨["modq".toList], false, fun _ => false⟩
     `from os.path import join as helper`, `def own`. -/
 def d8Items : List Item :=
   [.asyncFuncDef "aown".toList, .annAssign (.name "x".toList) true .nonlit,
-   .assign [.pattern ["a".toList, "b".toList]] .nonlit,
+   .assign [.pattern ["a".toList, "b".toList] []] .nonlit,
    .importFrom 0 (some ["os".toList, "path".toList]) [⟨"join".toList, some "helper".toList⟩],
    .funcDef "own".toList]
 
@@ -489,6 +614,41 @@ theorem d8_ann_all_current :
     exports Variant.current envM annAllItems = .ok ["a".toList, "b".toList] := by decide
 theorem d8_ann_all_fixed : exports Variant.fixed envM annAllItems = .ok ["a".toList] := by decide
 
+/-- Seeded C19-r3-1: `import os; from json import decoder; os.environ["K"] = "v";
+    decoder.FLAG = True; decoder.x, a = 1, 2; settings = {}; settings["d"] = 3`: the merely
+    imported `os` / `decoder` are not exported, `a` and `settings` are. -/
+def loadCtxItems : List Item :=
+  [.import_ [(["os".toList], none)],
+   .importFrom 0 (some ["json".toList]) [⟨"decoder".toList, none⟩],
+   .assign [.other ["os".toList]] .nonlit,
+   .assign [.other ["decoder".toList]] .nonlit,
+   .assign [.pattern ["a".toList] ["decoder".toList]] .nonlit,
+   .assign [.name "settings".toList] .nonlit,
+   .assign [.other ["settings".toList]] .nonlit]
+
+theorem load_ctx_fixed :
+    exports Variant.fixed envM loadCtxItems = .ok ["a".toList, "settings".toList] := by decide
+theorem load_ctx_current :
+    exports Variant.current envM loadCtxItems = .ok ["settings".toList] := by decide
+
+/-- D53 (fixed by commit 499e9c3): `tmp = [1]; keep = [2]; del tmp`. -/
+def d53Items : List Item :=
+  [.assign [.name "tmp".toList] .nonlit, .assign [.name "keep".toList] .nonlit, .del ["tmp".toList] []]
+
+theorem d53_current : exports Variant.current envM d53Items = .ok ["tmp".toList, "keep".toList] := by decide
+theorem d53_fixed : exports Variant.fixed envM d53Items = .ok ["keep".toList] := by decide
+
+/-- delete, then bind again: the name is an export; `del a, b` removes both. -/
+theorem d53_rebind : exports Variant.fixed envM
+    [.assign [.name "a".toList] .nonlit, .funcDef "b".toList, .classDef "c".toList,
+     .del ["a".toList, "b".toList] [], .funcDef "a".toList]
+    = .ok ["c".toList, "a".toList] := by decide
+
+/-- Residual (candidate CD-E): `a = b = 1; del (a, b)` — the parenthesised target is not seen. -/
+theorem del_nested_fixed : exports Variant.fixed envM
+    [.assign [.name "a".toList, .name "b".toList] .nonlit, .del [] ["a".toList, "b".toList]]
+    = .ok ["a".toList, "b".toList] := by decide
+
 /-- D31: in package `p` (an `__init__.py`), `from .sp import spx as leaf` where `p.sp.leaf` is a
     module: the re-exported *name* `leaf` is dropped because the alias is probed. -/
 def envP : Env := ⟨["p".toList], true,
@@ -501,6 +661,12 @@ def d31Items : List Item :=
 
 theorem d31_current : exports Variant.current envP d31Items = .ok ["L".toList] := by decide
 theorem d31_fixed : exports Variant.fixed envP d31Items = .ok ["leaf".toList] := by decide
+
+/-- Residual (candidate CD-D): `from .sp import spx; del spx` in a package `__init__`: the
+    re-export is added after the pass, so the deleted name is still exported. -/
+theorem del_reexport_fixed : exports Variant.fixed envP
+    [.importFrom 1 (some ["sp".toList]) [⟨"spx".toList, none⟩], .del ["spx".toList] []]
+    = .ok ["spx".toList] := by decide
 
 end Witness
 
